@@ -17,7 +17,9 @@ CONSTANTS GenericNopadFix,   \* crypto.Encrypt/Decrypt dispatch the three *-NOPA
           KwLenFix,          \* aeskw: Wrap wants >= 16 bytes, Unwrap a multiple of 8 that is >= 24
           OpenLenFix,        \* aescbcaead.Open rejects a ciphertext that is not a whole number of blocks
           PadBoundFix,       \* UnpadPKCS7 bounds the pad length by the block size (FALSE: by the message length)
-          KidCacheFix        \* FALSE: RSA public keys for verification are cached by key id (kid)
+          KidCacheFix,       \* FALSE: RSA public keys for verification are cached by key id (kid)
+          SharedMacFix,      \* FALSE: one HMAC state per aescbcaead instance, shared by concurrent Seal/Open
+          PoolFix            \* FALSE: decryptSymmetricAEAD returns a plaintext that lives in a pooled scratch buffer
 
 VARIABLES cs, c, i, pc
 vars == <<cs, c, i, pc>>
@@ -135,7 +137,10 @@ ImplRt(x, o) ==
   IF o = "ok" /\ ~KwLenFix /\ Dir(x.fn) = "enc" /\ x.inLen = 0 /\ x.alg \in KwNames /\ x.fn \in SymFns \cup GenericFns \cup KwFns
   THEN "no" ELSE "yes"
 
-ModelCompLen(x) == IF x.mut \in Flips \/ IsSeq(x) THEN 2 ELSE 1     \* the model abstracts a component to two byte positions
+LiveSame(x) == IF ~SharedMacFix /\ x.conc > 1 /\ x.fn \in AeadFns THEN {"yes", "no"} ELSE {"yes"}
+LiveKept(x, k) == IF ~PoolFix /\ x.keep >= 1 /\ k >= 1 /\ x.fn \in {"Decrypt", "DecryptSymmetric"}
+                     /\ Row(x.alg).fam \in {"gcm", "cbchmac"} THEN "no" ELSE "yes"
+ModelCompLen(x) == IF x.mut \in Flips \/ IsSeq(x) \/ IsLive(x) THEN 2 ELSE 1     \* the model abstracts a component to two byte positions
 
 Init ==
   /\ \E g \in Groups : cs \in GroupCases(g)
@@ -145,10 +150,22 @@ Init ==
 
 Call ==
   /\ pc = "call"
-  /\ \E o \in (IF StaleRSA(cs, i) THEN ImplStale(cs) ELSE Impl(cs)) :
-       c' = CNext(c, [ev |-> "call", idx |-> i, outcome |-> o, rt |-> ImplRt(cs, o), ref |-> "yes", noout |-> "yes"])
+  /\ IF IsLive(cs)
+     THEN \E o \in Impl(cs), sm \in LiveSame(cs) :
+            c' = CNext(c, [ev |-> "call", idx |-> 0, w |-> 0, i |-> i, outcome |-> o, rt |-> "yes", ref |-> "yes", noout |-> "yes",
+                           same |-> sm, kept |-> LiveKept(cs, i)])
+     ELSE \E o \in (IF StaleRSA(cs, i) THEN ImplStale(cs) ELSE Impl(cs)) :
+            c' = CNext(c, [ev |-> "call", idx |-> i, outcome |-> o, rt |-> ImplRt(cs, o), ref |-> "yes", noout |-> "yes"])
   /\ i' = i + 1
-  /\ pc' = IF i + 1 >= ModelCompLen(cs) THEN "end" ELSE "call"
+  /\ pc' = IF i + 1 >= ModelCompLen(cs) THEN (IF IsLive(cs) THEN "wsum" ELSE "end") ELSE "call"
+  /\ UNCHANGED cs
+
+(* the goroutines of a live case report one after the other *)
+Wsum ==
+  /\ pc = "wsum"
+  /\ c' = CNext(c, [ev |-> "wsum", w |-> i - ModelCompLen(cs), n |-> 2, deviating |-> 0])
+  /\ i' = i + 1
+  /\ pc' = IF i + 1 - ModelCompLen(cs) >= cs.conc THEN "end" ELSE "wsum"
   /\ UNCHANGED cs
 
 End ==
@@ -157,7 +174,7 @@ End ==
   /\ pc' = "done"
   /\ UNCHANGED <<cs, i>>
 
-Next == Call \/ End
+Next == Call \/ Wsum \/ End
 Spec == Init /\ [][Next]_vars
 
 NotBad == ~IsBad(c)
